@@ -5,6 +5,7 @@ import Desert.Refs
 import Desert.Own
 import Desert.Evolution
 import Desert.DeclWF
+import Desert.DecWF
 import Desert.AlignDiag
 import Desert.Normalize
 /-!
@@ -61,7 +62,7 @@ def step (env : Env) (line : String) : Env × String :=
   | some [.atom "wfall"] =>
     -- which declarations satisfy the hypothesis of the round-trip theorems (`declWFb`)
     let bad := env.filter fun p => !tyDeclWFb p.2
-    (env, s!"ok wf={env.length - bad.length} outside={" ".intercalate (bad.map (·.1))}")
+    (env, s!"ok wf={env.length - bad.length} decodable={envDecOKb env} outside={" ".intercalate (bad.map (·.1))}")
   | some [.atom "env", d] =>
     match tyDeclOfSexp d with
     | some (k, td) => ((k, td) :: env, "ok")
